@@ -34,6 +34,8 @@ type c02Case struct {
 	Base     string            `json:"base,omitempty"`      // structural: the valid program the mistake was built on (premise: it parses)
 	// OpenFails: a path (the template itself or a referenced one) the loader reports as existing but cannot open
 	OpenFails string `json:"open_fails,omitempty"`
+	// Name of the template ("" = /main.jet): names are data, also with characters that mean something to fmt
+	Name string `json:"name,omitempty"`
 }
 
 var c02Dict = []string{
@@ -52,7 +54,8 @@ func genC02Delims(t *rapid.T) jetrun.Delims {
 	}
 	if rapid.IntRange(0, 5).Draw(t, "halfConfigured") == 0 {
 		// only one delimiter of a pair configured: the other one keeps its default
-		return []jetrun.Delims{{Right: "]]"}, {Left: "[["}, {CRight: "#>"}, {CLeft: "<#"}, {Left: "<%", CRight: "#>"}, {Right: "%>", CLeft: "{#"}}[rapid.IntRange(0, 5).Draw(t, "halfWhich")]
+		// (the last two: a right delimiter that begins like the trim marker " -")
+		return []jetrun.Delims{{Right: "]]"}, {Left: "[["}, {CRight: "#>"}, {CLeft: "<#"}, {Left: "<%", CRight: "#>"}, {Right: "%>", CLeft: "{#"}, {Right: " -}}"}, {Left: "<%", Right: " -%>"}}[rapid.IntRange(0, 7).Draw(t, "halfWhich")]
 	}
 	return genDelims(t)
 }
@@ -200,7 +203,11 @@ func genC02(t *rapid.T) c02Case {
 			c.Src = p + L
 		case "unterminated-comment":
 			// also: the closer's tail directly behind the opener ("{*}"), which must not count as a closer
-			c.Src = p + d.CL() + rapid.SampledFrom([]string{"", " note ", " " + L + " x " + R, "*", "\n", d.CR()[1:], d.CR()[1:] + " tail", d.CR()[:len(d.CR())-1]}).Draw(t, "uc")
+			tail := rapid.SampledFrom([]string{"", " note ", " " + L + " x " + R, "*", "\n", d.CR()[1:], d.CR()[1:] + " tail", d.CR()[:len(d.CR())-1]}).Draw(t, "uc")
+			if strings.Contains(d.CL()[1:]+tail, d.CR()) {
+				tail = " note " // (the closer is part of the tail, e.g. a comment closed by the action's right delimiter)
+			}
+			c.Src = p + d.CL() + tail
 		case "unterminated-string":
 			c.Src = p + L + ` "abc` + rapid.SampledFrom([]string{"\n", "", "\n" + `"` + R, " " + R}).Draw(t, "us")
 		case "unterminated-rawstring":
@@ -248,13 +255,20 @@ func genC02(t *rapid.T) c02Case {
 			c.OpenFails = "/main.jet"
 		}
 	}
+	if c.OpenFails == "" && len(c.Files) == 0 && rapid.IntRange(0, 7).Draw(t, "oddName") == 0 {
+		c.Name = rapid.SampledFrom([]string{"/100%s%d.jet", "/caf%C3%A9/menu%20one.jet", "/50%off.jet", "/%v%q%!.jet"}).Draw(t, "name")
+	}
 	return c
 }
 
 var errPrefixRe = regexp.MustCompile(`^template: ([^:]+):(\d+): `)
 
 func judgeC02(c c02Case) (v core.Verdict) {
-	const name = "/main.jet"
+	name := "/main.jet"
+	if c.Name != "" {
+		name = c.Name
+		v.Label("template-name-with-percent-sign")
+	}
 	if len(c.Src) > 8192 {
 		v.Discard = "too-long"
 		return
